@@ -165,7 +165,12 @@ def check_greedy(run, A):
         e, kinds, comp = assign
         rc = [k for k in kinds if k[0] == 'rc']
         ok_as = len(rc) == 1 and rc[0][1] == 0 and comp == 1 and kinds[0][0] == 'rc'
-        run.check(ok_as, 'R-SEL', 'greedy assignment: mapping[row] = column', fn.loc(e.node), '', 'the pick (row i, column j) is not recorded as mapping[i] = j', construct=f'R-SEL::{q}::row-to-column')
+        if not ok_as and len(rc) == 1 and rc[0][1] == 0 and comp == 1 and kinds[-1][0] == 'rc' and getattr(e, 'node', None) is not None and not (fn.node.lineno <= e.node.lineno <= fn.node.end_lineno):
+            # campaign 13: a helper builds the mapping with the class axis LAST and its caller moves it to the front - the conversion is not followed
+            run.unresolved('R-SEL', 'greedy assignment: mapping[row] = column', fn.loc(e.node),
+                           'the pick is recorded as mapping[..., i] = j in a helper (class axis last); that the caller returns it class-first is not followed')
+        else:
+            run.check(ok_as, 'R-SEL', 'greedy assignment: mapping[row] = column', fn.loc(e.node), '', 'the pick (row i, column j) is not recorded as mapping[i] = j', construct=f'R-SEL::{q}::row-to-column')
         am = call_arg(unravel, 0)
         if is_call_to(am, 'builtin.int'):
             am = call_arg(am, 0)          # divmod(int(flat), K)
@@ -714,8 +719,19 @@ def check_dhtv_copy(run, A):
         return      # nothing is reordered in place (the paired-update rule reports the missing feature update)
     root = _chain_root(feats[0].term.args[0])
     alts = list(unwrap_gamma(root))
-    ok = bool(alts) and all(is_call_to(x, 'method:copy', 'numpy.copy') or call_parts(x)[0] == P + '_parameterized_vector_norm' or
-                            (is_call_to(x, 'numpy.array') and const_val(call_arg(x, None, 'copy')) in (NOVAL, True)) for x in alts)
+    def fresh(x):
+        return (is_call_to(x, 'method:copy', 'numpy.copy') or call_parts(x)[0] == P + '_parameterized_vector_norm' or
+                (is_call_to(x, 'numpy.array') and const_val(call_arg(x, None, 'copy')) in (NOVAL, True)))
+
+    def own_helper(x):
+        # campaign 13: the preparation moved into a method / function of the package - what it returns is not followed here
+        name = call_parts(x)[0] if isinstance(x, T) and x.op == 'call' else None
+        return isinstance(name, str) and not fresh(x) and (name.startswith(P) or name.startswith('self.') or name.startswith('method:_'))
+    ok = bool(alts) and all(fresh(x) for x in alts)
+    if not ok and alts and all(fresh(x) or own_helper(x) for x in alts):
+        run.unresolved('R-PERM', 'DHTV: the features that are reordered in place are a fresh copy of the mask', fn.loc(),
+                       'the working features are the result of a helper of the package whose return paths are not followed')
+        return
     run.check(ok, 'R-PERM', 'DHTV: the features that are reordered in place are a fresh copy of the mask', fn.loc(), '',
               'the working features may be the caller\'s mask itself (e.g. np.asarray(mask, dtype=...) returns the argument when the dtype matches): the mask is reordered in place and '
               'apply_mapping then permutes it a second time', construct=f'R-PERM::{q}::features-copy')
